@@ -148,4 +148,13 @@ theorem isectSS_from_kernels (a b : Blk) (ha : a.1 ≤ a.2) (hb : b.1 ≤ b.2) (
       show some (Except.ok (siLoc (si _ sa))) = _
       rw [siLoc_si]; rfl
 
+/-! ### the statements are not vacuous: concrete evaluations on both sides -/
+
+example : Gen.SingleInterval_extend_absolute (si (3, 10) .minus) 2 5 = .ok ⟨1, 15, .minus⟩ := by rfl
+example : Gen.SingleInterval_extend_absolute (si (3, 10) .minus) 4 0 = .error .InvalidPositionException := by rfl
+example : Gen.SingleInterval_extend_absolute (si (3, 10) .minus) (-1) 0 = .error .ValueError := by rfl
+example : Gen.SingleInterval_shift_position (si (3, 10) .plus) (-4) = .error .InvalidPositionException := by rfl
+example : Gen.SingleInterval_optimize_blocks (si (4, 4) .plus) = .ok none := by rfl
+example : ((3, 10) : Blk).1 ≤ ((3, 10) : Blk).2 ∧ overlapKernel (3, 10) (5, 12) = true := by decide
+
 end BioCantor.Proofs.AlgTies
